@@ -47,6 +47,7 @@ def generate(seed, tier):
         k["flat"] = rng.choice([0.3, 0.7])          # rules with more than ten variables
         k["arity"] = 12
     tb = model.gen_treebank(rng, k, nsent=rng.choice([1, 2, 3, 5]))
+    model.add_twins(rng, tb, k, p=0.3)
     for s in tb:
         for t in s["tokens"]:
             if t[0] and t[0][-1].isdigit():
